@@ -42,6 +42,11 @@ def extract(ctx):
     lines = [l for l in p.stdout.splitlines() if l[:2] in ("0 ", "1 ", "2 ")]
     ctx.coverage["fact_sites"] = len(lines)
     ctx.coverage["fact_sites_established"] = len([l for l in lines if l.startswith("0 ")])
+    gen = open(GEN).read()
+    import re
+    rows = re.findall(r"\((\d+), (\d+), \"", gen)
+    ctx.coverage["fact_kinds_established"] = sorted(set(int(k) for k, v in rows if v == "0"))
+    ctx.coverage["fact_kinds_present"] = sorted(set(int(k) for k, v in rows))
     ctx.coverage["fact_sites_refuted"] = [l[2:] for l in lines if l.startswith("1 ")]
     ctx.coverage["fact_sites_unknown_shape"] = [l[2:] for l in lines if l.startswith("2 ")]
     if ctx.coverage["fact_sites_unknown_shape"]:
